@@ -317,3 +317,87 @@ func VerifC13_ContainersRoundTrip() {
 		verifrt.Assert(ok, "C13 a string list reads back as the sorted duplicate-free set of its elements")
 	})
 }
+
+// VerifC13_GetAndSet: the read-modify-write setters return what was stored
+// before, report whether the stored value changed, and write exactly when the
+// field checker selects the field.
+func VerifC13_GetAndSet() {
+	hadOld := verifrt.Bool("old.present")
+	oldS, newS := verifrt.StringUpTo("old.s", 1), verifrt.StringUpTo("new.s", 1)
+	oldL := []string{"p", "q"}
+	newL := []string{"q", "r"}
+	selS, selL := verifrt.Bool("select.s"), verifrt.Bool("select.l")
+	useChecker := verifrt.Bool("checker")
+	var checker FieldChecker
+	if useChecker {
+		m := MapFieldChecker{}
+		if selS {
+			m["s"] = struct{}{}
+		}
+		if selL {
+			m["l"] = struct{}{}
+		}
+		checker = m
+	} else {
+		selS, selL = true, true
+	}
+	db := verifrt.OpenDB()
+	err := db.Update(func(tx *bbolt.Tx) error {
+		b := GetOrCreatePath(tx, "root", "e")
+		if hadOld {
+			b.SetString("s", oldS, nil).SetStringList("l", oldL, nil)
+		}
+		return b.GetError()
+	})
+	verifrt.Assert(err == nil, "C13 initial write succeeds")
+	var gotOld *string
+	var changed, changedL bool
+	var gotOldL []string
+	err = db.Update(func(tx *bbolt.Tx) error {
+		b := Path(tx, "root", "e")
+		gotOld, changed = b.GetAndSetString("s", newS, checker)
+		gotOldL, changedL = b.GetAndSetStringList("l", newL, checker)
+		return b.GetError()
+	})
+	verifrt.Assert(err == nil, "C13 read-modify-write succeeds")
+	if selS {
+		if hadOld {
+			verifrt.Assert(gotOld != nil && *gotOld == oldS, "C13 GetAndSetString returns the previous value")
+			verifrt.Assert(changed == (oldS != newS), "C13 GetAndSetString reports a change iff the value differs")
+		} else {
+			verifrt.Assert(gotOld == nil && changed, "C13 GetAndSetString on an absent field returns nil and reports a change")
+		}
+	} else {
+		verifrt.Assert(gotOld == nil && !changed, "C13 GetAndSetString on an unselected field reports no change")
+	}
+	if hadOld {
+		verifrt.Assert(verifSameStrings(gotOldL, oldL), "C13 GetAndSetStringList returns the previous list")
+	} else {
+		verifrt.Assert(len(gotOldL) == 0, "C13 GetAndSetStringList on an absent field returns an empty list")
+	}
+	verifrt.Assert(changedL == selL, "C13 GetAndSetStringList reports a write iff the field is selected")
+	_ = db.View(func(tx *bbolt.Tx) error {
+		b := Path(tx, "root", "e")
+		gs := b.GetString("s")
+		switch {
+		case selS:
+			verifrt.Assert(gs != nil && *gs == newS, "C13 GetAndSetString stores the new value when selected")
+		case hadOld:
+			verifrt.Assert(gs != nil && *gs == oldS, "C13 GetAndSetString leaves an unselected field alone")
+		default:
+			verifrt.Assert(gs == nil, "C13 GetAndSetString does not create an unselected field")
+		}
+		gl := b.GetStringList("l")
+		switch {
+		case selL:
+			verifrt.Assert(verifSameStrings(gl, newL), "C13 GetAndSetStringList stores the new list when selected")
+			verifrt.Assert(!b.IsStringListEmpty("l"), "C13 a stored non-empty list is not reported empty")
+		case hadOld:
+			verifrt.Assert(verifSameStrings(gl, oldL), "C13 GetAndSetStringList leaves an unselected list alone")
+		default:
+			verifrt.Assert(len(gl) == 0 && b.IsStringListEmpty("l"), "C13 an absent list reads as empty")
+		}
+		return nil
+	})
+	_ = db.Close()
+}
